@@ -13,6 +13,7 @@ package main
 // makes "synchronously, before Record returns" observable.
 
 import (
+	"context"
 	"encoding/json"
 	"errors"
 	"fmt"
@@ -28,13 +29,14 @@ import (
 )
 
 type c10Op struct {
-	Op   string  `json:"op"` // sub tag timer rec pass start hist hstart stop call exec close
+	Op   string  `json:"op"` // sub tag timer rec pass start hist hstart stop call exec close begin end
 	H    int     `json:"h"`  // the handle the call is made on
 	Name B       `json:"name,omitempty"`
 	Tags map[B]B `json:"tags,omitempty"`
 	D    int64   `json:"d,omitempty"`
 	Spec []int64 `json:"spec,omitempty"`
 	Err  bool    `json:"err,omitempty"`
+	Kind int     `json:"kind,omitempty"` // exec / end with Err: which error value the function returns (c10ErrValue)
 }
 type c10Case struct {
 	Flavour int     `json:"flavour"` // 0 plain, 1 cached, 2 test scope, 3 both a plain and a cached reporter
@@ -319,7 +321,12 @@ type c10Metric struct {
 	obj  string   // identity of the metric object: scope (prefix, tags) and name
 	strs []string // fully qualified name, then the tags sorted by key
 }
+type c10ExecB struct {
+	call  int
+	start int64
+}
 type c10Book struct {
+	execs  []c10ExecB
 	scopes []c10Scope
 	timers []c10Metric
 	hists  []c10Metric
@@ -434,8 +441,70 @@ func (b *c10Book) apply(o c10Op, clock func(int) int64, clockAt int) int {
 		b.calls = append(b.calls, cm)
 	case "exec":
 		return 2
+	case "begin":
+		b.execs = append(b.execs, c10ExecB{o.H, clock(clockAt)})
+		return 1
+	case "end":
+		return 1
 	}
 	return 0
+}
+
+// The error values an instrumented function may return ("returns its error
+// unchanged": the very same value, whatever it is). Kind 0/1 = errors.New.
+type c10PtrErr struct{ msg string }
+
+func (e *c10PtrErr) Error() string { return "c10PtrErr" }
+
+type c10ValErr struct{ code int }
+
+func (e c10ValErr) Error() string        { return fmt.Sprintf("c10ValErr %d", e.code) }
+func (e c10ValErr) Is(target error) bool { return target == context.Canceled || target == io.EOF }
+
+const c10ErrKinds = 13
+
+func c10ErrValue(kind int) error {
+	switch kind {
+	case 2:
+		return context.Canceled
+	case 3:
+		ctx, cancel := context.WithCancel(context.Background())
+		cancel()
+		return ctx.Err()
+	case 4:
+		return fmt.Errorf("fetch user: %w", context.Canceled)
+	case 5:
+		return context.DeadlineExceeded
+	case 6:
+		return &c10PtrErr{"custom"}
+	case 7:
+		return fmt.Errorf("outer: %w", &c10PtrErr{"inner"})
+	case 8:
+		var p *c10PtrErr // a nil pointer in a non-nil error value
+		return p
+	case 9:
+		return io.EOF
+	case 10:
+		return errors.Join(context.Canceled, io.EOF)
+	case 11:
+		return c10ValErr{7} // a value type whose Is method claims to be context.Canceled
+	case 12:
+		ctx, cancel := context.WithTimeout(context.Background(), -time.Second)
+		defer cancel()
+		return fmt.Errorf("query: %w", ctx.Err())
+	}
+	return errors.New("f failed")
+}
+
+// c10Running: an execution that is inside its function. The function blocks
+// until the harness lets it return (a second invocation of the function by the
+// same Exec would return the same outcome at once).
+type c10Running struct {
+	finish chan error
+	done   chan error
+	runs   int
+	out    error
+	ended  bool
 }
 
 func c10ClockAt(script []int64) func(int) int64 {
@@ -682,8 +751,20 @@ func c10Run(c *c10Case) (in []Ev, obs []Ev, fail string) {
 			failf(j, "histogram %q: %d more sample(s) reported in (%d, %d] than stopwatches stopped with an elapsed time in that range", h, n, lo, hi)
 		}
 	}
+	var running []*c10Running
+	defer func() { // never leave a goroutine inside an instrumented function
+		for _, x := range running {
+			if !x.ended {
+				x.finish <- nil
+				<-x.done
+			}
+		}
+	}()
 	prev := 0
 	for j, o := range c.Ops {
+		if o.Op == "end" && (o.H < 0 || o.H >= len(running) || running[o.H].ended) {
+			continue // an execution ends once
+		}
 		at := reads
 		var expT *c10Metric // the timer that must receive exactly one value during this op
 		var expD int64
@@ -732,37 +813,65 @@ func c10Run(c *c10Case) (in []Ev, obs []Ev, fail string) {
 		case "call":
 			calls = append(calls, instrument.NewCall(scopes[o.H], string(o.Name)))
 			in = append(in, Ev{K: 50, I: []int64{int64(o.H)}, S: []string{string(o.Name)}})
-		case "exec":
-			runs := 0
-			ferr := errors.New("f failed")
-			ret := calls[o.H].Exec(func() error {
-				runs++
-				if o.Err {
+		case "exec", "end":
+			var ferr error
+			if o.Err {
+				ferr = c10ErrValue(o.Kind)
+			}
+			var ret error
+			runs, callH := 0, o.H
+			if o.Op == "exec" {
+				ret = calls[o.H].Exec(func() error {
+					runs++
 					return ferr
-				}
-				return nil
-			})
+				})
+				in = append(in, Ev{K: 51, I: []int64{int64(o.H), b2i(o.Err)}})
+				expD = sat64sub(clock(at+1), clock(at))
+			} else {
+				x := running[o.H]
+				x.ended = true
+				x.finish <- ferr
+				ret = <-x.done
+				runs, callH = x.runs, bk.execs[o.H].call
+				in = append(in, Ev{K: 54, I: []int64{int64(o.H), b2i(o.Err)}})
+				expD = sat64sub(clock(at), bk.execs[o.H].start) // since this execution's own start
+			}
 			code := int64(2)
 			if ret == nil {
 				code = 0
-			} else if ret == ferr {
+			} else if o.Err && ret == ferr {
 				code = 1
 			}
-			in = append(in, Ev{K: 51, I: []int64{int64(o.H), b2i(o.Err)}})
 			execEv = &Ev{K: 92, I: []int64{int64(runs), code}}
-			cm := bk.calls[o.H]
-			expT, expD = &cm.lat, sat64sub(clock(at+1), clock(at))
+			cm := bk.calls[callH]
+			expT = &cm.lat
 			if runs != 1 {
 				failf(j, "the instrumented function ran %d times", runs)
 			}
 			if code != b2i(o.Err) {
-				failf(j, "Exec returned code %d for a function returning error=%v", code, o.Err)
+				failf(j, "the function returned %s, Exec returned %s: not the function's error unchanged", c10ErrStr(ferr), c10ErrStr(ret))
 			}
 			if o.Err {
 				want[strings.Join(cm.errC.strs, "\x00")]++
 			} else {
 				want[strings.Join(cm.okC.strs, "\x00")]++
 			}
+		case "begin":
+			x := &c10Running{finish: make(chan error), done: make(chan error, 1)}
+			started := make(chan struct{})
+			go func(call instrument.Call) {
+				x.done <- call.Exec(func() error {
+					x.runs++
+					if x.runs == 1 {
+						started <- struct{}{}
+						x.out = <-x.finish
+					}
+					return x.out
+				})
+			}(calls[o.H])
+			<-started // Exec has read the clock and is inside the function
+			running = append(running, x)
+			in = append(in, Ev{K: 53, I: []int64{int64(o.H)}})
 		}
 		bk.apply(o, clock, at)
 
@@ -808,14 +917,14 @@ func c10Run(c *c10Case) (in []Ev, obs []Ev, fail string) {
 					if expT == nil {
 						failf(j, "timer delivery %v during a call that records nothing", e)
 					} else if e.I[0] != expD || !sameStrs(e.S, expT.strs) {
-						failf(j, "timer delivery %v, expected value %d for %q", e, expD, expT.strs)
+						failf(j, "timer delivery %v, expected value %d for %q%s", e, expD, expT.strs, c10Why(o))
 					}
 				case 23:
 					nT++
 					if expT == nil {
 						failf(j, "timer delivery %v during a call that records nothing", e)
 					} else if id, ok := cachedID[expT.obj]; !ok || e.I[0] != id || e.I[1] != expD {
-						failf(j, "cached timer delivery %v, expected value %d on handle %d (known %v) of %q", e, expD, id, ok, expT.strs)
+						failf(j, "cached timer delivery %v, expected value %d on handle %d (known %v) of %q%s", e, expD, id, ok, expT.strs, c10Why(o))
 					}
 				}
 			}
@@ -845,7 +954,7 @@ func c10Run(c *c10Case) (in []Ev, obs []Ev, fail string) {
 					grow = 1
 				}
 				if len(nv) != len(old)+grow || !sameI64(nv[:len(old)], old) || (grow == 1 && nv[len(old)] != expD) { // (&& / || short-circuit: lengths first)
-					failf(j, "timer %q: Snapshot() values went from %s to %s (expected the old values and %d new value(s), %d)", k, brief(old), brief(nv), grow, expD)
+					failf(j, "timer %q: Snapshot() values went from %s to %s (expected the old values and %d new value(s), %d)%s", k, brief(old), brief(nv), grow, expD, c10Why(o))
 				}
 			}
 			if expT != nil {
@@ -910,6 +1019,31 @@ func c10Run(c *c10Case) (in []Ev, obs []Ev, fail string) {
 		}
 	}
 	return
+}
+
+// c10Why: where the expected value of an elapsed-time delivery comes from.
+func c10Why(o c10Op) string {
+	switch o.Op {
+	case "stop":
+		return " = clock at Stop - clock at this stopwatch's Start"
+	case "exec":
+		return " = clock after the function - clock before it"
+	case "end":
+		return " = clock when this execution's function returned - clock when this execution began (other executions of the Call began since)"
+	}
+	return ""
+}
+
+func c10ErrStr(e error) string {
+	if e == nil {
+		return "nil"
+	}
+	s := "?"
+	func() {
+		defer func() { recover() }()
+		s = e.Error()
+	}()
+	return fmt.Sprintf("%T(%q)", e, s)
 }
 
 // c10Allocates: the timer the op just applied to the book obtains from its
@@ -991,7 +1125,7 @@ func c10Term(idx int, c *c10Case, in, obs []Ev) string {
 func init() {
 	props["C10"] = func(ctx *Ctx) {
 		ctx.Header("TimerCorr")
-		ctx.Res.Rule = "case = (flavour of root scope, root prefix/tags, clock script, history of SubScope/Tagged/Timer/Record/report pass/Start/Stop/Histogram/NewCall/Exec calls); generated from the seed; plus histories that close scopes, unscheduled concurrent Records on one timer, long histories (hundreds of Records on one or two timers) and concurrent cases (threads obtaining the same new timer and recording on their handles, with the schedule); non-trivial = at least one value reaches a timer (Record, Stop or Exec); distinct by hash of the case"
+		ctx.Res.Rule = "case = (flavour of root scope, root prefix/tags, clock script, history of SubScope/Tagged/Timer/Record/report pass/Start/Stop/Histogram/NewCall/Exec calls); generated from the seed; plus instrumented calls with every kind of error value and overlapping executions of one Call, histories that close scopes, unscheduled concurrent Records on one timer, long histories (hundreds of Records on one or two timers) and concurrent cases (threads obtaining the same new timer and recording on their handles, with the schedule); non-trivial = at least one value reaches a timer (Record, Stop or Exec); distinct by hash of the case"
 		fl := []string{"plain", "cached", "test", "both"}
 		one := func(c *c10Case) {
 			if c.Wall > 0 {
@@ -1026,7 +1160,7 @@ func init() {
 			nrec, npass := 0, 0
 			for _, o := range c.Ops {
 				switch o.Op {
-				case "rec", "stop", "exec":
+				case "rec", "stop", "exec", "end":
 					nrec++
 				case "pass":
 					npass++
@@ -1064,6 +1198,10 @@ func init() {
 			c := c
 			one(&c)
 		}
+		for _, c := range c10FixedExec() {
+			c := c
+			one(&c)
+		}
 		for _, c := range c10FixedClose() {
 			c := c
 			one(&c)
@@ -1079,6 +1217,12 @@ func init() {
 		n := ctx.N(900, 12000)
 		for i := 0; i < n; i++ {
 			c := c10Gen(ctx.R, i)
+			one(&c)
+		}
+		// instrumented calls: "all error/nil outcomes of instrumented functions", executions of one Call
+		// overlapping ("records one latency": the time that execution took)
+		for i := 0; i < ctx.N(150, 2500); i++ {
+			c := c10GenExec(ctx.R, i)
 			one(&c)
 		}
 		// scopes that get closed: "Each Timer.Record(d) results in exactly one timer delivery" also on
@@ -1161,6 +1305,121 @@ func c10GenLong(r *Rng, i int) c10Case {
 	c.Ops = append(c.Ops, c10Op{Op: "pass"})
 	c.Every = len(c.Ops)/5 + 1
 	return c
+}
+
+// c10GenExec: instrumented calls - every kind of error value, executions of
+// one Call begun and ended in any order (overlapping), report passes between.
+func c10GenExec(r *Rng, i int) c10Case {
+	c := c10Case{Flavour: []int{0, 1, 2, 3}[i%4]}
+	c.Prefix = B(r.Pick([]string{"", "p"}))
+	c.Tags = c10Tags(r, 1)
+	switch x := r.Intn(10); {
+	case x < 6:
+		t := int64(r.Intn(2000000000))
+		for j := 0; j < 40; j++ {
+			c.Clock = append(c.Clock, t)
+			t += int64(r.Intn(3)) * int64(r.Intn(1000000007))
+		}
+	case x < 9:
+		for j := 0; j < 40; j++ {
+			c.Clock = append(c.Clock, r.I64())
+		}
+	default:
+		for j := 0; j < 40; j++ {
+			c.Clock = append(c.Clock, int64(40*j*j))
+		}
+	}
+	clock := c10ClockAt(c.Clock)
+	bk := newBook(&c)
+	at := 0
+	add := func(o c10Op) {
+		at += bk.apply(o, clock, at)
+		c.Ops = append(c.Ops, o)
+	}
+	newCall := func() {
+		o := c10Op{Op: "call", H: r.Intn(len(bk.scopes)), Name: B(r.Pick([]string{"rpc", "get", "x_y"}))}
+		cm := bk.scopes[o.H].callMetrics(string(o.Name))
+		if c.Flavour == 2 && (bk.collides(1, cm.errC) || bk.collides(1, cm.okC) || bk.collides(0, cm.lat)) {
+			return
+		}
+		add(o)
+	}
+	if r.Bool() {
+		add(c10Op{Op: "sub", H: 0, Name: "s"})
+	}
+	newCall()
+	if len(bk.calls) == 0 {
+		add(c10Op{Op: "call", H: 0, Name: "rpc"})
+	}
+	var open []int
+	outcome := func(o c10Op) c10Op {
+		if r.Chance(70) {
+			o.Err, o.Kind = true, 1+r.Intn(c10ErrKinds-1)
+		}
+		return o
+	}
+	for n := r.Range(4, 14); n > 0; n-- {
+		switch x := r.Intn(100); {
+		case x < 35:
+			add(outcome(c10Op{Op: "exec", H: r.Intn(len(bk.calls))}))
+		case x < 60 && len(open) < 4:
+			h := r.Intn(len(bk.calls))
+			if len(open) > 0 && r.Chance(60) {
+				h = bk.execs[open[len(open)-1]].call // the same Call again while it is running
+			}
+			open = append(open, len(bk.execs))
+			add(c10Op{Op: "begin", H: h})
+		case x < 82 && len(open) > 0:
+			k := r.Intn(len(open))
+			if r.Bool() {
+				k = len(open) - 1 // innermost first, as when the function calls Exec itself
+			}
+			add(outcome(c10Op{Op: "end", H: open[k]}))
+			open = append(open[:k], open[k+1:]...)
+		case x < 90:
+			add(c10Op{Op: "pass"})
+		case x < 95:
+			newCall()
+		default:
+			add(outcome(c10Op{Op: "exec", H: r.Intn(len(bk.calls))}))
+		}
+	}
+	for len(open) > 0 {
+		k := r.Intn(len(open))
+		add(outcome(c10Op{Op: "end", H: open[k]}))
+		open = append(open[:k], open[k+1:]...)
+	}
+	add(c10Op{Op: "pass"})
+	return c
+}
+
+// c10FixedExec: one Call; two executions overlap (first begun, first ended),
+// every kind of error value once, an execution inside another one.
+func c10FixedExec() []c10Case {
+	ops := []c10Op{
+		{Op: "call", H: 0, Name: "rpc"},
+		{Op: "begin", H: 0},
+		{Op: "begin", H: 0},
+		{Op: "end", H: 0, Err: true, Kind: 4},
+		{Op: "end", H: 1},
+		{Op: "begin", H: 0},
+		{Op: "exec", H: 0, Err: true, Kind: 2},
+		{Op: "end", H: 2, Err: true, Kind: 6},
+		{Op: "pass"},
+	}
+	for k := 1; k < c10ErrKinds; k++ {
+		ops = append(ops, c10Op{Op: "exec", H: 0, Err: true, Kind: k})
+	}
+	ops = append(ops, c10Op{Op: "exec", H: 0}, c10Op{Op: "pass"})
+	clk := []int64{0, 1000000, 41000000, 41000007}
+	for j := 0; j < 40; j++ {
+		clk = append(clk, 50000000+int64(j)*1000)
+	}
+	var out []c10Case
+	for f := 0; f < 4; f++ {
+		out = append(out, c10Case{Flavour: f, Prefix: "svc", Clock: clk, Ops: ops})
+	}
+	return out
 }
 
 // c10GenClose: histories in which scopes are closed (sub-scopes, in the end
